@@ -4,4 +4,5 @@ import "verifharness/kv"
 
 func init() {
 	commands["kvreplay"] = func(a []string) int { return kv.CmdReplay(a, seed()) }
+	commands["kviter"] = func(a []string) int { return kv.CmdIterHold(a, seed()) }
 }
